@@ -112,8 +112,11 @@ package keeper
 //@ extern (vm github.com/bandprotocol/go-owasm/api.Vm) Execute(code, gasLimit, env) (output, err)
 //@ modifies env, VMErr, VMRet
 //@ ensures err == VMErr && env.Retdata == VMRet
+// the reports stored for a request, in store order (iterator + decode loop: body not verified; named abstractly)
+//@ spec reportsOf(s Store, rid Int) []types.Report uninterpreted
 //@ func (k Keeper) GetReports
 //@ trusted
+//@ ensures reports == reportsOf(Store_oracle, rid)
 //@ func (k Keeper) GetFile
 //@ trusted
 //@ func (k Keeper) handleCreateSigningFailed
@@ -361,3 +364,32 @@ package keeper
 //@ loop 0: invariant forall d Str :: ext("Coins.AmountOf", fcCollected(collector), d) <= ext("Coins.AmountOf", feeLimit, d)
 //@ loop 0: invariant forall d Str :: FeePaid[d] - old(FeePaid)[d] == ext("Coins.AmountOf", fcCollected(collector), d)
 //@ loop 1: invariant true
+
+// ---- C19: what a (re)starting yoda is told it still has to report ---------------------------------------------------
+// yoda reads this list once at start-up; requests committed before it subscribed reach it no other way. The list must be
+// EXACTLY the unexpired requests (lastExpired, requestCount] that chose the validator, that the validator has not
+// reported yet and that are not fully reported: one left out is a request that never gets its report.
+//@ spec reportedBy(rs []types.Report, v Addr) Bool = exists i :: 0 <= i && i < len(rs) && bech32ok(rs[i].Validator) && bech32addr(rs[i].Validator) == v
+//@ spec owesReport(s Store, id Int, v Addr) Bool =
+//@      len(reportsOf(s, id)) != len(reqAt(s, id).RequestedValidators) && requestedVal(reqAt(s, id).RequestedValidators, v) && !reportedBy(reportsOf(s, id), v)
+//@ extern google.golang.org/grpc/status.Error(c, msg) (err)
+//@ ensures err != nil
+//@ func (k Querier) PendingRequests
+//@ may_panic calls
+//@ requires wfRequests(Store_oracle)
+//@ ensures err == nil ==> bech32ok(req.ValidatorAddress)
+//@ ensures err == nil ==> (forall j :: 0 <= j && j < len(result.RequestIDs) ==> (let g = result.RequestIDs[j] in
+//@        lastExpired(Store_oracle) < g && g <= reqCount(Store_oracle) && owesReport(Store_oracle, g, bech32addr(req.ValidatorAddress))))
+//@ ensures err == nil ==> (forall g Int :: lastExpired(Store_oracle) < g && g <= reqCount(Store_oracle) && owesReport(Store_oracle, g, bech32addr(req.ValidatorAddress))
+//@        ==> (exists j :: 0 <= j && j < len(result.RequestIDs) && result.RequestIDs[j] == g))
+//@ loop 0: invariant lastExpired + 1 <= id && id <= requestCount + 1 && lastExpired == lastExpired(Store_oracle) && requestCount == reqCount(Store_oracle)
+//@ loop 0: invariant forall j :: 0 <= j && j < len(pendingIDs) ==> (let g = pendingIDs[j] in
+//@        lastExpired < g && g < id && owesReport(Store_oracle, g, valAddress))
+//@ loop 0: invariant forall g Int :: lastExpired < g && g < id && owesReport(Store_oracle, g, valAddress)
+//@        ==> (exists j :: 0 <= j && j < len(pendingIDs) && pendingIDs[j] == g)
+//@ loop 1: invariant !isInValidatorSet && (forall j :: 0 <= j && j < #i ==> bech32ok(oracleReq.RequestedValidators[j]) && bech32addr(oracleReq.RequestedValidators[j]) != valAddress)
+//@ loop 2: invariant !reported && (forall j :: 0 <= j && j < #i ==> bech32ok(reports[j].Validator) && bech32addr(reports[j].Validator) != valAddress)
+
+// protobuf encoding of a result (codec): assumed
+//@ func (k Keeper) MarshalResult
+//@ trusted
